@@ -78,6 +78,7 @@ class GenAudit:
         self.inst = {}  # uid -> {"tok": Tok, "elem": (ei, role, k)}
         self.pending = []
         self.snapshots = []  # (element index, [desc views]) most recent last
+        self.copy_snapshots = []  # open lists at the moment a MolGen was deep-copied (start of a finalisation)
         self.extra_standalone = extra_standalone or []
         self.draws = []
         self.atts = []  # processed attach records
@@ -150,6 +151,19 @@ class GenAudit:
                 self.viol("C05", "fragment_atom_count", f"fragment of {tok.name} has {ev['na']} atoms, notation has {tok.natoms}", ev)
         elif k == "copy":
             self.used[ev["dst"]] = set(self.used.get(ev["src"], ()))
+            # a finalisation works on a copy: remember the open list it starts from (terminal reservations are explained
+            # against it, however many capping attaches of an earlier, discarded finalisation lie in between)
+            try:
+                from .seams import desc_view
+
+                views = [desc_view(b) for b in live["src"].bond_descriptors]
+                ei = self.atts[-1]["ei"] if self.atts else None
+                if ei is not None:
+                    self.copy_snapshots.append((ei, views))
+                    if len(self.copy_snapshots) > 3:
+                        self.copy_snapshots.pop(0)
+            except Exception:
+                pass
         elif k == "draw":
             self.draws.append(ev)
         elif k == "att":
@@ -313,7 +327,7 @@ class GenAudit:
         for ei, e in enumerate(self.ast.elements):
             if isinstance(e, Stoch) and e.left.sym == "" and e.ebonds():
                 out.append(Template("start_pick", weights_rule([t.descs[k].weight for t, k in e.ebonds()]), None))
-        for ei, views in reversed(self.snapshots):
+        for ei, views in list(reversed(self.copy_snapshots)) + list(reversed(self.snapshots)):
             e = self.ast.elements[ei]
             if isinstance(e, Stoch) and e.right.sym != "":
                 inv = Desc(sym=e.right.sym, did=e.right.did, order=e.right.order)
